@@ -87,8 +87,9 @@ class Rec:
         if detail is not None:
             try:
                 txt = cjson(detail)
-            except Exception:  # noqa: BLE001
+            except Exception:  # noqa: BLE001  (e.g. circular structures returned by the code under test)
                 txt = repr(detail)
+                detail = txt[:1500]
             if len(txt) > 1500:
                 detail = txt[:1500] + "...<truncated>"
         self.fails.append((bucket, detail))
